@@ -1,7 +1,7 @@
 //! C02 — wild-card propositions and restricted domains.
 
 use super::common::*;
-use crate::formulas::{templates, Alphabet, Gen};
+use crate::formulas::{collision_alphabet, pair_family, templates, Alphabet, Gen};
 use crate::report::Report;
 use crate::sem::{self, Checks, Entries};
 use crate::sweep::{label_families, NetCtx};
@@ -28,6 +28,11 @@ pub fn run(tier: &str) -> Result<Report, String> {
             // under different outer domains, wild-cards in duplicated sub-trees)
             let probe = NetCtx::new(b.clone(), label_families(b, 1)[0].1.clone(), "probe");
             fs.extend(templates(&probe.user, true, if tier == "quick" { 2 } else { 6 }).into_iter().filter(|f| f.uses_wild_or_dom()));
+            if b.n >= 2 {
+                let pool = collision_alphabet(&probe.user);
+                let pool: Vec<_> = pool.into_iter().take(if tier == "quick" { 14 } else { 28 }).collect();
+                fs.extend(pair_family(&pool, if tier == "quick" { 6 } else { 12 }, true).into_iter().filter(|f| f.uses_wild_or_dom()));
+            }
         }
         for (desc, labels) in label_families(b, fams) {
             let ctx = NetCtx::new(b.clone(), labels, &desc);
@@ -57,6 +62,6 @@ pub fn run(tier: &str) -> Result<Report, String> {
         }
     }
     rep.set("slices", json!(slices));
-    rep.rule = "all closed extended formulae with at most max_nodes nodes that contain a wild-card or a domain, plus the extended template families (nested and repeated domains, the same inner domain under different outer domains, pattern and duplicate shapes inside domain scopes), x every label family (context-set assignment), through model_check_extended_formula(_dirty), compared with the explicit-state oracle on every state x valid colour; plus the operator sweep: every unary/binary operator and every quantifier form with/without domains on EVERY coloured set (and every pair of sets) of tiny networks; distinct_nontrivial = distinct non-trivial (network, labels, verdict table)".into();
+    rep.rule = "all closed extended formulae with at most max_nodes nodes that contain a wild-card or a domain, plus the extended template families (nested and repeated domains, the same inner domain under different outer domains, pattern and duplicate shapes inside domain scopes) and the pair family (every ordered pair of the collision alphabet joined by & / |, and nested as Q{x} in %d%: (A & @{x}: B)), x every label family (context-set assignment), through model_check_extended_formula(_dirty), compared with the explicit-state oracle on every state x valid colour; plus the operator sweep: every unary/binary operator and every quantifier form with/without domains on EVERY coloured set (and every pair of sets) of tiny networks; distinct_nontrivial = distinct non-trivial (network, labels, verdict table)".into();
     Ok(rep)
 }
